@@ -131,6 +131,15 @@ CHECKS = {
             "the hook clock never goes backwards; REMEMBERs issued while a flush is in flight (25% of the histories) inherit the C03 in-flight "
             "read findings and are matched to one known finding",
             "DESIGN.md §4 C14"),
+    "C15": ("exploration",
+            "runtime monitoring: reference oracle (python sequence matcher from query.md) per storage tier over generated linked histories",
+            "Two linked event types plus a noise type are stored with link values shared by many events / one side only / unique and times from "
+            "a small domain (payload datetime with USING TIME, or the hook clock for the core timestamp); FOLLOWED BY / PRECEDED BY queries with "
+            "a-side, b-side, both-side, OR and unprefixed conditions and LIMITs are asked in memory / mixed / L0 / compacted / restart layouts; "
+            "every returned pair must be valid, the matched a-set must equal the reference set and LIMIT counts must be min(n, matchable).",
+            "the reported partner of an a-event with several qualifying partners is unspecified; WHERE is read per side (projection on the "
+            "leaves addressed to that side), conditions on fields a type lacks are unspecified; repeated pairs in compacted tiers are a known finding",
+            "DESIGN.md §4 C15"),
 }
 
 PENDING_REASON = "check not built yet in this session (see DESIGN.md §10 for the order); no claim is made"
